@@ -2,6 +2,12 @@
 # Regenerates MANIFEST.json from the table below (kept as a script so the file stays valid and consistent).
 import json, sys
 claimed = {
+ "C05": dict(level="fault_enumeration", design="§4 C05", technique="deterministic simulation: batch.Authorize under a simulated context (logical clock), failing/cancelling callback at every k, custom iterator and owned map order; oracle = the harness' own Cartesian enumeration + substitution + cedar.Authorize",
+   text="For every generated scenario the batch authorizer is run fault-free against a brute-force reference (own enumeration of the product, own substitution, cedar.Authorize per element: exactly-once delivery, substituted request, decision, reason set), and then once for EVERY position k at which the callback fails or cancels the context, with the context cancelled before the call, and with cancellation at sampled instants of the logical clock (yield points inside partial evaluation). Fault positions of a scenario are enumerated, scenarios are sampled.",
+   note="Trusted: cedar.Authorize as the reference for a concrete request (that is the property's definition), the harness' substitution and product loop, errors.Is for error identity. Relaxations: at most one callback may start after an asynchronous cancellation; nil accepted when cancellation happens at the last element."),
+ "C14": dict(level="exploration", design="§4 C14", technique="deterministic simulation: every map-iteration event in an instrumented copy is ordered by a seeded schedule tape; differential comparison of all observables between the canonical and a tape-chosen schedule / insertion order; schedule minimised to the culprit iteration site",
+   text="Seeded exploration of the schedule space Go's map randomisation creates: each scenario is observed under the canonical schedule and under a random per-event schedule (reverse, rotation, shuffle) with permuted insertion order, repetitions and a permuted custom iterator; decision, reason set, error set with messages, batch results, every encoding and every decode+re-encode must be equal. The oracle is plain equality between two legal schedules, so it cannot disagree with the implementation about semantics.",
+   note="Trusted: that verifsim.RangeMap only produces orders Go allows; that the standard library leaks no map order (encoding/json and fmt sort keys). Not observed: validator/resolver messages, x/exp/dot. Equal values built in different orders may render differently (hash collisions); that is not demanded by the property and batch requests are therefore compared through the harness' canonical rendering."),
  "C18": dict(level="fault_enumeration", design="§4 C18", technique="deterministic simulation: seeded io.Reader chunking schedules + enumerated reader faults (every byte position x kind x follow-up), differential oracle against single-read decode and an independent position model",
    text="Seeded search over reader schedules (chunk sizes incl. 1 byte, splits inside runes/tokens/strings/comments, zero-length reads, data+EOF) on generated documents, plus, for sampled documents up to 400 bytes, enumeration of every byte position x fault kind (0-byte error, n-byte error, early EOF) x follow-up (sticky, then-EOF, transient). Fault enumeration is the right level because the property quantifies over every failure position of a finite document; documents and chunkings are sampled.",
    note="Trusted: the harness' reader stub, its independent line/column model, Go's reflect.DeepEqual on ASTs. Sampling over documents and chunk schedules is not exhaustive; only the fault positions of a sampled document are."),
